@@ -428,8 +428,26 @@ def check_faulted(sc, ref, res, fault, violate):
         if not ok:
             violate("F4", dict(sig, what="torn"), "returned normally (status %r) after fault %r but %s" % (st, fault, why))
             return "violation"
-    # F3: failure before the result exists leaves the output location untouched
-    before_result = res["fired_phase"] in ("start", "merge_called") and "merged" not in cap
+    # F3: a failure before the result is written leaves the output location untouched.  "Before the result is
+    # written" = the fault fired before the merge result existed, or at a step boundary that precedes the first
+    # completed open-for-writing of the output location (for stdout: the first write to it).
+    out_class = "local" if sc["out"] == "inplace" else ("stdout" if sc["out"] == "stdout" else "out")
+    evs = [tuple(e) for e in res["events"]]
+    before_output_begins = bool(res["fired"])
+    for fk, fkind in res["fired"]:       # every fired fault (double-fault plans) must precede the output
+        fk = tuple(fk)
+        if fk[0] == "line":
+            continue
+        if fk not in evs:
+            before_output_begins = False
+            break
+        idx = evs.index(fk)
+        started = any(e[0] == ("write" if out_class == "stdout" else "open_w") and e[1] == out_class for e in evs[:idx])
+        torn_here = fk[0] == "write" and fk[1] == out_class and fkind == "torn"
+        if started or torn_here:
+            before_output_begins = False
+            break
+    before_result = (res["fired_phase"] in ("start", "merge_called") and "merged" not in cap) or before_output_begins
     if before_result and not verified_complete and sc["shape"] != "both_null" and not untouched:
         violate("F3", dict(sig, what="touched"),
                 "fault %r fired before the merge result existed, status %r, but the output location changed: %r -> %r" % (
